@@ -261,6 +261,7 @@ type JournalEntry struct {
 	Args   []string `json:"a,omitempty"`
 	Err    string   `json:"e,omitempty"`
 	Fault  bool     `json:"f,omitempty"` // the error was injected by the fault plan
+	Signal bool     `json:"s,omitempty"` // injected, but a contract-defined signal rather than a failure (ErrDuplicateUserCode)
 }
 
 // TEPolicy is the token-exchange policy of the store (part of the abstract state).
@@ -356,6 +357,7 @@ type Store struct {
 	// fault plan
 	FailAt     int    // fail the k-th storage call (1-based); 0 = off
 	FailMethod string // fail every call of this method
+	FailOnce   bool   // the plan applies to the first matching call only
 	FailKind   string // "error" | "deadline" | "canceled" | "oidc" | "dupcode" | "typednil"
 	calls      int
 
@@ -411,6 +413,10 @@ func (s *Store) enter(ctx context.Context, method string, args ...string) error 
 	e := JournalEntry{N: s.calls, Method: method, Args: args}
 	var err error
 	if (s.FailAt != 0 && s.calls == s.FailAt) || (s.FailMethod != "" && s.FailMethod == method) {
+		if s.FailOnce {
+			// only the first matching call fails (a retry of the library meets a storage that works)
+			defer func() { s.FailAt, s.FailMethod, s.FailOnce = 0, "", false }()
+		}
 		if s.FailKind == "deadline" {
 			err = context.DeadlineExceeded
 		} else if s.FailKind == "dupcode" {
@@ -428,6 +434,11 @@ func (s *Store) enter(ctx context.Context, method string, args ...string) error 
 		}
 		e.Err = err.Error()
 		e.Fault = true
+		if method == "StoreDeviceAuthorization" && s.FailKind == "dupcode" {
+			// op.ErrDuplicateUserCode is not a failure of the storage: the contract calls it a signal "to try again with a new code".
+			// Whether the provider then retries or gives up is its choice; what it answers must be consistent (C16), not necessarily an error (C10).
+			e.Fault, e.Signal = false, true
+		}
 	}
 	s.Journal = append(s.Journal, e)
 	return err
